@@ -286,7 +286,7 @@ func init() {
 		}
 		total := int64(maxL * maxK * len(c17Variants))
 		spec := checkSpec{Prop: "C17", Level: "exploration",
-			Rule: fmt.Sprintf("exhaustive to the bound: every line count 1..%d x node count 1..%d x batch-file encoding %v; for each the real calcHermesBatch -list/-size output is checked (contiguous, disjoint, covering, count = size) and every printed range is executed by the real hermes2go -lines a-b at concurrency 1/2/3/16 on instantly failing lines; the multiset of executed log ids must be {0..L-1}; evaluations = (lines, nodes, encoding) triples, non-trivial = triples whose ranges were all executed and verified", maxL, maxK, c17Variants),
+			Rule:     fmt.Sprintf("exhaustive to the bound: every line count 1..%d x node count 1..%d x batch-file encoding %v; for each the real calcHermesBatch -list/-size output is checked (contiguous, disjoint, covering, count = size) and every printed range is executed by the real hermes2go -lines a-b at concurrency 1/2/3/16 on instantly failing lines; the multiset of executed log ids must be {0..L-1}; evaluations = (lines, nodes, encoding) triples, non-trivial = triples whose ranges were all executed and verified", maxL, maxK, c17Variants),
 			Floors:   []string{"pairs_lines_nodes_ok", "pairs_fewer_lines_than_nodes", "pairs_with_remainder", "simulator_invocations"},
 			FloorMin: map[string]int64{"pairs_lines_nodes_ok": total}}
 		extra := map[string]interface{}{"exhaustive": true, "bound_lines": maxL, "bound_nodes": maxK, "encodings": c17Variants}
